@@ -1,6 +1,9 @@
 package term
 
-import "testing"
+import (
+	"math/rand"
+	"testing"
+)
 
 func TestRewrites(t *testing.T) {
 	x := Sym("x", 16)
@@ -38,5 +41,61 @@ func TestRewrites(t *testing.T) {
 	z.SetRange(0, 200)
 	if !Equal(ZExt(Extract(ZExt(z, 64), 7, 0), 64), ZExt(z, 64)) {
 		t.Fatalf("fit-truncation not identity: %s", ZExt(Extract(ZExt(z, 64), 7, 0), 64))
+	}
+}
+
+func TestLinCmpSound(t *testing.T) {
+	rnd := rand.New(rand.NewSource(7))
+	syms := []*T{}
+	for _, n := range []string{"x", "y", "z"} {
+		s := Sym(n, 16)
+		s.SetRange(0, 5000)
+		syms = append(syms, s)
+	}
+	bases := []uint64{0, 5, 1700000000000000000}
+	mults := []uint64{1, 3, 1000, 1000000}
+	var gen func(d int) *T
+	gen = func(d int) *T {
+		switch rnd.Intn(5) {
+		case 0:
+			return Const(64, bases[rnd.Intn(len(bases))])
+		case 1, 2:
+			return Mul(ZExt(syms[rnd.Intn(3)], 64), Const(64, mults[rnd.Intn(len(mults))]))
+		default:
+			if d > 3 {
+				return ZExt(syms[rnd.Intn(3)], 64)
+			}
+			return Add(gen(d+1), gen(d+1))
+		}
+	}
+	for i := 0; i < 20000; i++ {
+		a, b := gen(0), gen(0)
+		var got, want *T
+		switch rnd.Intn(4) {
+		case 0:
+			got, want = Ult(a, b), mk(OUlt, 0, a, b)
+		case 1:
+			got, want = Slt(a, b), mk(OSlt, 0, a, b)
+		case 2:
+			c, d := gen(0), gen(0)
+			got, want = Slt(Sub(a, b), Sub(c, d)), mk(OSlt, 0, mk(OSub, 64, a, b), mk(OSub, 64, c, d))
+		default:
+			got, want = Slt(Const(64, 0), Sub(a, b)), mk(OSlt, 0, Const(64, 0), mk(OSub, 64, a, b))
+		}
+		for j := 0; j < 6; j++ {
+			m := NewModel()
+			for _, n := range []string{"x", "y", "z"} {
+				v := uint64(rnd.Intn(5001))
+				if rnd.Intn(4) == 0 {
+					v = []uint64{0, 1, 4999, 5000}[rnd.Intn(4)]
+				}
+				m.Syms[n] = v
+			}
+			g := NewEvaluator(m).Eval(got)
+			w := NewEvaluator(m).Eval(want)
+			if g != w {
+				t.Fatalf("mismatch: got %v (%s) want %v (%s) under %v", g, got, w, want, m.Syms)
+			}
+		}
 	}
 }
